@@ -170,7 +170,7 @@ OpUids(ev) ==
     CASE ev.op \in {"rekey", "prune", "keygen"} ->
            IF UserPolWellFormed(ev.pol) /\ UserPolV(g, ev.pol)
            THEN UNION GrantCombos(g.st, g.attrs, ev.pol) ELSE {}
-      [] ev.op = "encaps" ->
+      [] ev.op \in {"encaps", "header"} ->
            IF ev.mpk \in DOMAIN g.mpks /\ EncPolValid(g.mpks[ev.mpk].st, g.mpks[ev.mpk].attrs, ev.pol)
            THEN UNION {ClauseCombo(g.mpks[ev.mpk].st, g.mpks[ev.mpk].attrs, ev.pol[i]) : i \in 1..Len(ev.pol)}
            ELSE {}
@@ -209,7 +209,10 @@ RecapsViol(g2, ev) ==
           THEN {Vio({"C18", "C16"}, "re-encapsulation reused the old secret", "none", <<ev.e>>)} ELSE {})
          \cup
          (IF Has(ev, "encv") /\ ~(Cardinality(g2.enc[ev.e].tg) <= ev.encv.n /\ ev.encv.n <= Cardinality(g2.enc[ev.e].tgx))
-          THEN {Vio({"C18"}, "re-encapsulation has a wrong number of targets", "none",
+          \* (full_decaps walks every right of the master key: any identifier shared by two attributes of
+          \*  this history can add or merge targets -- finding F-ALIAS)
+          THEN {Vio({"C18"}, "re-encapsulation has a wrong number of targets",
+                    IF \E a, b \in DOMAIN ids : a # b /\ ids[a] = ids[b] /\ ids[a] >= 0 THEN "alias" ELSE "none",
                     <<ev.e, ev.encv.n, g2.enc[ev.e].tg, g2.enc[ev.e].tgx>>)} ELSE {})
     ELSE {}
 
